@@ -608,12 +608,14 @@ def _k3_parts(tier):
     parts = []
     q = tier == "quick"
     for site in ("full", "simple"):
-        # \\u + digits/minus chosen by the solver (+ the optional '?' and following text)
+        # \\u + digits / minus chosen by the solver (+ the optional '?' and following text)
         for n in range(1, (6 if q else 8) + 1):
             for suffix in ("", "?x"):
                 parts.append({"site": site, "len": n, "prefix": "\\u", "alphabet": "num", "suffix": suffix})
         # \\u / \\' / nothing + free characters of the RTF alphabet
-        for prefix, top in (("\\u", 3 if q else 5), ("\\'", 3 if q else 4), ("", 3 if q else 5)):
+        tops = {("full", True): (4, 4, 4), ("simple", True): (3, 4, 4),
+                ("full", False): (5, 5, 5), ("simple", False): (4, 5, 5)}[(site, q)]
+        for prefix, top in zip(("\\u", "\\'", ""), tops):
             for n in range(1, top + 1):
                 parts.append({"site": site, "len": n, "prefix": prefix})
     return parts
@@ -740,6 +742,7 @@ class _Gen:
         self.payload_len = None
         self.stream_pos0 = None
         self.rows = None
+        self.size_focus = None
 
     def _str_len(self, name):
         opts = _STR_LENGTHS.get((self.cls.__name__, name))
@@ -770,11 +773,14 @@ class _Gen:
             return None
         if (self.cls.__name__, name) in (("OpenDocumentImage", "width"), ("OpenDocumentImage", "height")):
             lex = _odf_length_lexemes()
-            if _known(ctx, F_ODF_SIZE):
-                lex = [x for x in lex if x is None or sum(ch.isdigit() for ch in x) < 300]
-            if self.bulk or name == "height":
+            if self.size_focus is None:
+                self.size_focus = ("width", "height")[0 if self.bulk else ctx.choice("size_focus", 2)]
+            if self.bulk or name != self.size_focus:
                 return "10cm"
-            return lex[ctx.choice(f"{name}_lexeme", len(lex))]
+            v = lex[ctx.choice(f"{name}_lexeme", len(lex))]
+            if _known(ctx, F_ODF_SIZE) and v is not None and sum(ch.isdigit() for ch in v) > 300:
+                ctx.assume(False)
+            return v
         if tp is int:
             v = ctx.fresh_int(name, -2 ** 31, 2 ** 31)
             if name in _NUMBER_FIELDS:
@@ -1295,3 +1301,758 @@ def _k2_parts(tier):
 def _k2_targets():
     _sympath_class()
     return [_dt().FileMetadataInterface.populate_from_path] + _SYMPATH["targets"]
+
+
+# =======================================================================================
+# K4  textual document properties reported unchanged
+# =======================================================================================
+
+F_XLSX_SUBJECT = "C04-xlsx-subject-not-reported"
+F_ODF_KEYWORDS = "C04-odf-only-first-keyword-reported"
+F_EPUB_REPEATED = "C04-epub-only-first-of-repeated-dc-element-reported"
+
+_PROPS = ("title", "author", "subject", "keywords", "description")
+# attribute of the metadata object that may carry a property (either name is accepted)
+_ATTR_CANDIDATES = {"title": ("title",), "author": ("author", "creator"), "subject": ("subject",),
+                    "keywords": ("keywords",), "description": ("description", "comments")}
+_FIXED = {"title": "Ttl", "author": "Ath", "subject": "Sbj", "keywords": "Kwd", "description": "Dsc"}
+
+_NS_DC = "http://purl.org/dc/elements/1.1/"
+_NS_CP = "http://schemas.openxmlformats.org/package/2006/metadata/core-properties"      # ECMA-376 part 2
+_NS_OFFICE = "urn:oasis:names:tc:opendocument:xmlns:office:1.0"                           # ODF 1.2 part 1
+_NS_META = "urn:oasis:names:tc:opendocument:xmlns:meta:1.0"
+_NS_OPF = "http://www.idpf.org/2007/opf"                                                  # EPUB 3 packages
+
+# format -> (root builder, element of each property, properties that may repeat, exact?)
+_XML_FORMATS = {
+    # ECMA-376 part 2, 11: core properties part
+    "docx": dict(container=(f"{{{_NS_CP}}}coreProperties",), exact=True, repeatable=(),
+                 elements={"title": f"{{{_NS_DC}}}title", "author": f"{{{_NS_DC}}}creator",
+                           "subject": f"{{{_NS_DC}}}subject", "keywords": f"{{{_NS_CP}}}keywords",
+                           "description": f"{{{_NS_DC}}}description"}),
+    # ODF 1.2 part 1, 4.3: <office:document-meta><office:meta> ; keywords: one <meta:keyword> each
+    "odf": dict(container=(f"{{{_NS_OFFICE}}}document-meta", f"{{{_NS_OFFICE}}}meta"), exact=True,
+                repeatable=("keywords",),
+                elements={"title": f"{{{_NS_DC}}}title", "author": f"{{{_NS_DC}}}creator",
+                          "subject": f"{{{_NS_DC}}}subject", "keywords": f"{{{_NS_META}}}keyword",
+                          "description": f"{{{_NS_DC}}}description"}),
+    # EPUB 3.3 package document: <package><metadata> with Dublin Core elements; creator and subject
+    # may repeat; values are white-space trimmed by the specification
+    "epub": dict(container=(f"{{{_NS_OPF}}}package", f"{{{_NS_OPF}}}metadata"), exact=False,
+                 repeatable=("author", "subject"),
+                 elements={"title": f"{{{_NS_DC}}}title", "author": f"{{{_NS_DC}}}creator",
+                           "subject": f"{{{_NS_DC}}}subject", "description": f"{{{_NS_DC}}}description"}),
+}
+_XML_FORMATS["pptx"] = _XML_FORMATS["docx"]
+_XML_FORMATS["xlsx"] = _XML_FORMATS["docx"]
+
+
+def _k4_text(ctx, name, n):
+    return _alphabet(ctx, ctx.fresh_chars(name, n, 32, 126), "", ((32, 126),))
+
+
+def _strip_sp(x):
+    """value with leading / trailing white space removed (str or CharStr)"""
+    return x.strip()
+
+
+def _k4_compare(ctx, reported, stored, exact, label, **info):
+    if reported is None and len(stored) == 0:
+        return
+    ctx.require(_is_text(reported), "property-not-text", prop=info.get("prop"), got=type(reported).__name__)
+    if ctx.perturb == "expect_upper":
+        stored = stored.upper()
+    if exact:
+        ok = _seq_eq(reported, stored)
+    else:
+        ok = _seq_eq(_strip_sp(reported), _strip_sp(stored))
+    ctx.require(ok, label, reported=_show(reported), stored=_show(stored), **info)
+
+
+def _k4_reported(md, prop):
+    for a in _ATTR_CANDIDATES[prop]:
+        if hasattr(md, a):
+            return True, getattr(md, a)
+    return False, None
+
+
+def _k4_run_xml(ctx, fmt, root):
+    """hand the (parsed) properties part to the format's own reader"""
+    import importlib
+    ex = "sharepoint2text.parsing.extractors."
+    if fmt == "odf":
+        m = importlib.import_module(ex + "open_office." + ctx.params.get("odf_module", "odt_extractor"))
+        return m._extract_metadata_from_context(types.SimpleNamespace(meta_root=root)) \
+            if hasattr(m, "_extract_metadata_from_context") else m._extract_metadata(root)
+    if fmt in ("docx", "pptx"):
+        m = importlib.import_module(ex + f"ms_modern.{fmt}_extractor")
+        with ctx.shadow(m, int=S.IntShadow):
+            return m._extract_metadata_from_context(types.SimpleNamespace(_core_root=root))
+    if fmt == "epub":
+        m = importlib.import_module(ex + "epub_extractor")
+        c = object.__new__(m._EpubContext)
+        c._opf_root = root
+        c._metadata = m.EpubMetadata()
+        c._parse_metadata()
+        return c._metadata
+    raise KeyError(fmt)
+
+
+def _k4_xlsx_props(ctx, values):
+    """what openpyxl hands over as workbook.properties for a core-properties part"""
+    import xml.etree.ElementTree as ET
+    if ctx.concrete:
+        from openpyxl.packaging.core import DocumentProperties
+        from openpyxl.xml.functions import fromstring
+        spec = _XML_FORMATS["xlsx"]
+        root = ET.Element(spec["container"][0])
+        for prop, vals in values.items():
+            for v in vals:
+                ET.SubElement(root, spec["elements"][prop]).text = v
+        return DocumentProperties.from_tree(fromstring(ET.tostring(root)))
+    one = lambda p: (values[p][0] if values[p] and len(values[p][0]) else None)
+    return types.SimpleNamespace(title=one("title"), creator=one("author"), subject=one("subject"),
+                                 keywords=one("keywords"), description=one("description"),
+                                 lastModifiedBy=None, created=None, modified=None, language=None,
+                                 revision=None, category=None, contentStatus=None, identifier=None,
+                                 version=None, lastPrinted=None)
+
+
+# minimal containers around a properties part (written from the package specifications), so that the
+# concrete run goes through the public readers
+_CT = ('<?xml version="1.0"?><Types xmlns="http://schemas.openxmlformats.org/package/2006/content-types">'
+       '<Default Extension="rels" ContentType="application/vnd.openxmlformats-package.relationships+xml"/>'
+       '<Default Extension="xml" ContentType="application/xml"/>%s</Types>')
+_RELS = '<?xml version="1.0"?><Relationships xmlns="http://schemas.openxmlformats.org/package/2006/relationships">%s</Relationships>'
+_REL = '<Relationship Id="%s" Type="%s" Target="%s"/>'
+_OD = "http://schemas.openxmlformats.org/officeDocument/2006/relationships"
+_CORE_REL = "http://schemas.openxmlformats.org/package/2006/relationships/metadata/core-properties"
+_ODF_NS = ('xmlns:office="urn:oasis:names:tc:opendocument:xmlns:office:1.0" '
+           'xmlns:text="urn:oasis:names:tc:opendocument:xmlns:text:1.0" '
+           'xmlns:table="urn:oasis:names:tc:opendocument:xmlns:table:1.0" '
+           'xmlns:draw="urn:oasis:names:tc:opendocument:xmlns:drawing:1.0"')
+_ODF_KINDS = {
+    "odt_extractor": ("read_odt", "application/vnd.oasis.opendocument.text",
+                      "<office:text><text:p>x</text:p></office:text>"),
+    "ods_extractor": ("read_ods", "application/vnd.oasis.opendocument.spreadsheet",
+                      '<office:spreadsheet><table:table table:name="S"><table:table-row><table:table-cell>'
+                      "<text:p>x</text:p></table:table-cell></table:table-row></table:table></office:spreadsheet>"),
+    "odp_extractor": ("read_odp", "application/vnd.oasis.opendocument.presentation",
+                      '<office:presentation><draw:page draw:name="p1"/></office:presentation>'),
+    "odg_extractor": ("read_odg", "application/vnd.oasis.opendocument.graphics",
+                      '<office:drawing><draw:page draw:name="p1"/></office:drawing>'),
+}
+
+
+def _zip(files):
+    import zipfile
+    b = io.BytesIO()
+    with zipfile.ZipFile(b, "w", zipfile.ZIP_DEFLATED) as zf:
+        for name, data in files:
+            if name == "mimetype":
+                zf.writestr(zipfile.ZipInfo(name), data)
+            else:
+                zf.writestr(name, data)
+    b.seek(0)
+    return b
+
+
+def _k4_public(ctx, fmt, part):
+    """(reader name, metadata object) from the public reader on a minimal container holding the
+    properties part; None when this format has no writer here"""
+    import importlib
+    ex = "sharepoint2text.parsing.extractors."
+    if fmt == "docx":
+        W = "http://schemas.openxmlformats.org/wordprocessingml/2006/main"
+        f = _zip([("[Content_Types].xml", _CT % (
+            '<Override PartName="/word/document.xml" ContentType="application/vnd.openxmlformats-officedocument.'
+            'wordprocessingml.document.main+xml"/><Override PartName="/docProps/core.xml" ContentType='
+            '"application/vnd.openxmlformats-package.core-properties+xml"/>')),
+            ("_rels/.rels", _RELS % (_REL % ("rId1", _OD + "/officeDocument", "word/document.xml") +
+                                     _REL % ("rId2", _CORE_REL, "docProps/core.xml"))),
+            ("word/document.xml", f'<w:document xmlns:w="{W}"><w:body><w:p><w:r><w:t>x</w:t></w:r></w:p></w:body></w:document>'),
+            ("docProps/core.xml", part)])
+        reader = importlib.import_module(ex + "ms_modern.docx_extractor").read_docx
+    elif fmt == "pptx":
+        P = "http://schemas.openxmlformats.org/presentationml/2006/main"
+        f = _zip([("[Content_Types].xml", _CT % (
+            '<Override PartName="/ppt/presentation.xml" ContentType="application/vnd.openxmlformats-officedocument.'
+            'presentationml.presentation.main+xml"/><Override PartName="/ppt/slides/slide1.xml" ContentType='
+            '"application/vnd.openxmlformats-officedocument.presentationml.slide+xml"/><Override PartName='
+            '"/docProps/core.xml" ContentType="application/vnd.openxmlformats-package.core-properties+xml"/>')),
+            ("_rels/.rels", _RELS % (_REL % ("rId1", _OD + "/officeDocument", "ppt/presentation.xml") +
+                                     _REL % ("rId2", _CORE_REL, "docProps/core.xml"))),
+            ("ppt/presentation.xml", f'<p:presentation xmlns:p="{P}" xmlns:r="{_OD}"><p:sldIdLst>'
+                                     '<p:sldId id="256" r:id="rId1"/></p:sldIdLst></p:presentation>'),
+            ("ppt/_rels/presentation.xml.rels", _RELS % (_REL % ("rId1", _OD + "/slide", "slides/slide1.xml"))),
+            ("ppt/slides/slide1.xml", f'<p:sld xmlns:p="{P}"><p:cSld><p:spTree/></p:cSld></p:sld>'),
+            ("docProps/core.xml", part)])
+        reader = importlib.import_module(ex + "ms_modern.pptx_extractor").read_pptx
+    elif fmt == "odf":
+        kind = _ODF_KINDS.get(ctx.params.get("odf_module", "odt_extractor"))
+        if kind is None:
+            return None
+        rname, mime, body = kind
+        f = _zip([("mimetype", mime),
+                  ("content.xml", f'<office:document-content {_ODF_NS} office:version="1.2"><office:body>{body}'
+                                  "</office:body></office:document-content>"),
+                  ("meta.xml", part),
+                  ("META-INF/manifest.xml",
+                   '<manifest:manifest xmlns:manifest="urn:oasis:names:tc:opendocument:xmlns:manifest:1.0" '
+                   f'manifest:version="1.2"><manifest:file-entry manifest:full-path="/" manifest:media-type="{mime}"/>'
+                   '<manifest:file-entry manifest:full-path="content.xml" manifest:media-type="text/xml"/>'
+                   '<manifest:file-entry manifest:full-path="meta.xml" manifest:media-type="text/xml"/>'
+                   "</manifest:manifest>")])
+        reader = getattr(importlib.import_module(ex + "open_office." + ctx.params.get("odf_module", "odt_extractor")), rname)
+    elif fmt == "epub":
+        f = _zip([("mimetype", "application/epub+zip"),
+                  ("META-INF/container.xml",
+                   '<container xmlns="urn:oasis:names:tc:opendocument:xmlns:container" version="1.0"><rootfiles>'
+                   '<rootfile full-path="OEBPS/content.opf" media-type="application/oebps-package+xml"/>'
+                   "</rootfiles></container>"),
+                  ("OEBPS/content.opf", part),
+                  ("OEBPS/c1.xhtml", '<html xmlns="http://www.w3.org/1999/xhtml"><head><title>c</title></head>'
+                                     "<body><p>x</p></body></html>")])
+        reader = importlib.import_module(ex + "epub_extractor").read_epub
+    else:
+        return None
+    res = list(reader(f, None))
+    return reader.__name__, res[0].get_metadata()
+
+
+def k4_xml_properties(ctx):
+    import xml.etree.ElementTree as ET
+    fmt = ctx.params["fmt"]
+    spec = _XML_FORMATS[fmt]
+    ctx.decision_memo = {}
+    props = [p for p in _PROPS if p in spec["elements"]]
+    focus = props[ctx.choice("focus", len(props))]
+    states = ["absent", "empty", "text"] + (["repeated"] if focus in spec["repeatable"] else [])
+    state = states[ctx.choice("state", len(states))]
+    if state == "repeated" and ((fmt == "odf" and _known(ctx, F_ODF_KEYWORDS)) or
+                                (fmt == "epub" and _known(ctx, F_EPUB_REPEATED))):
+        ctx.assume(False)
+    values = {p: [_FIXED[p]] for p in props}
+    if state == "absent":
+        values[focus] = []
+    elif state == "empty":
+        values[focus] = [""]
+    elif state == "text":
+        n = 1 + ctx.choice("text_len", ctx.params.get("max_text", 3))
+        values[focus] = [_k4_text(ctx, "text", n)]
+    else:
+        values[focus] = [_k4_text(ctx, "first", 2), _k4_text(ctx, "second", 2)]
+    if fmt == "xlsx":
+        import importlib
+        m = importlib.import_module("sharepoint2text.parsing.extractors.ms_modern.xlsx_extractor")
+        wb = types.SimpleNamespace(properties=_k4_xlsx_props(ctx, values))
+        try:
+            md = m._extract_metadata_from_workbook(wb)
+        except S.Unsupported:
+            raise
+        except Exception as e:
+            ctx.fail("metadata-reader-raised", fmt=fmt, exc=type(e).__name__, msg=str(e)[:80])
+            return
+    else:
+        root = ET.Element(spec["container"][0])
+        if fmt == "epub":
+            root.set("version", "3.0")
+        holder = root
+        for tag in spec["container"][1:]:
+            holder = ET.SubElement(holder, tag)
+        for p in props:
+            for v in values[p]:
+                ET.SubElement(holder, spec["elements"][p]).text = v
+        if fmt == "epub":
+            # a package document also needs manifest and spine to be read as a book
+            man = ET.SubElement(root, f"{{{_NS_OPF}}}manifest")
+            ET.SubElement(man, f"{{{_NS_OPF}}}item", {"id": "c1", "href": "c1.xhtml", "media-type": "application/xhtml+xml"})
+            ET.SubElement(ET.SubElement(root, f"{{{_NS_OPF}}}spine"), f"{{{_NS_OPF}}}itemref", {"idref": "c1"})
+        try:
+            md = None
+            if ctx.concrete:
+                # the written part inside a minimal container, through the public reader
+                pub = _k4_public(ctx, fmt, ET.tostring(root, encoding="unicode"))
+                if pub is not None:
+                    md = pub[1]
+                else:
+                    root = ET.fromstring(ET.tostring(root, encoding="unicode"))
+            if md is None:
+                md = _k4_run_xml(ctx, fmt, root)
+        except S.Unsupported:
+            raise
+        except Exception as e:
+            ctx.fail("metadata-reader-raised", fmt=fmt, exc=type(e).__name__, msg=str(e)[:80])
+            return
+    for p in props:
+        has, rep = _k4_reported(md, p)
+        if not has:
+            if fmt == "xlsx" and p == "subject" and _known(ctx, F_XLSX_SUBJECT):
+                continue
+            ctx.fail("property-has-no-field-in-metadata", fmt=fmt, prop=p, metadata=type(md).__name__)
+            continue
+        stored = values[p]
+        if len(stored) == 0:
+            _k4_compare(ctx, rep, "", spec["exact"], "absent-property-reported-non-empty", fmt=fmt, prop=p)
+        elif len(stored) == 1:
+            _k4_compare(ctx, rep, stored[0], spec["exact"], "property-not-reported-unchanged", fmt=fmt, prop=p)
+        else:
+            # several values stored: each of them has to be found in what is reported
+            ctx.require(_is_text(rep), "property-not-text", prop=p)
+            for k, v in enumerate(stored):
+                v = _strip_sp(v)
+                if len(v) == 0:
+                    continue
+                found = (v in rep) if isinstance(rep, str) and isinstance(v, str) else S.CharStr(_codes(rep))._contains(v)
+                if isinstance(found, S.SymBool):
+                    found = found.z
+                ctx.require(found, "repeated-property-value-not-reported", fmt=fmt, prop=p, which=k,
+                            reported=_show(rep), stored=[_show(s) for s in stored])
+
+
+def _k4x_parts(tier):
+    parts = [{"fmt": f} for f in ("docx", "pptx", "xlsx", "epub")]
+    parts += [{"fmt": "odf", "odf_module": m} for m in ("odt_extractor", "ods_extractor", "odp_extractor",
+                                                          "odg_extractor", "odf_extractor")]
+    return parts
+
+
+def _k4x_targets():
+    import importlib
+    ex = "sharepoint2text.parsing.extractors."
+    out = [importlib.import_module(ex + "open_office._shared").extract_odf_metadata]
+    for f in ("docx", "pptx"):
+        out.append(importlib.import_module(ex + f"ms_modern.{f}_extractor")._extract_metadata_from_context)
+    out.append(importlib.import_module(ex + "ms_modern.xlsx_extractor")._extract_metadata_from_workbook)
+    out.append(importlib.import_module(ex + "epub_extractor")._EpubContext._parse_metadata)
+    return out
+
+
+# ---------------------------------------------------------------------------------------
+# K4 / HTML
+# ---------------------------------------------------------------------------------------
+
+_HTML_LIFT = {}
+_HTML_META = {"author": "author", "keywords": "keywords", "description": "description"}
+
+
+def _html():
+    from sharepoint2text.parsing.extractors import html_extractor
+    return html_extractor
+
+
+def _html_lifted_extractor(root):
+    from vf import lift
+    h = _html()
+    L = _HTML_LIFT
+    if not L:
+        ns = dict(_RE_CHARSET_IN_CONTENT=SymRegex(h._RE_CHARSET_IN_CONTENT))
+        L["meta"] = lift.lift(h._HtmlTextExtractor._extract_metadata, **ns)
+        L["text"] = lift.lift(h._HtmlTextExtractor._get_node_text, **ns)
+    ex = h._HtmlTextExtractor(root)
+    ex._get_node_text = lambda node, include_children=True, include_tail=False: \
+        L["text"](ex, node, include_children, include_tail)
+    ex._extract_metadata = lambda path: L["meta"](ex, path)
+    return ex
+
+
+def _html_substitute(node, table):
+    """replace placeholder strings in the tree the real tree builder produced"""
+    for key in ("text", "tail"):
+        if node.get(key) in table:
+            node[key] = table[node[key]]
+    for a, v in list(node.get("attrs", {}).items()):
+        if v in table:
+            node["attrs"][a] = table[v]
+    for ch in node.get("children", []):
+        _html_substitute(ch, table)
+
+
+def _ascii_ci_equal(s, word):
+    """ASCII case-insensitive equality (HTML: meta names are compared that way)"""
+    cs = _codes(s)
+    if len(cs) != len(word):
+        return False
+    parts = []
+    for c, w in zip(cs, word):
+        alts = {ord(w.lower()), ord(w.upper())}
+        if isinstance(c, int):
+            if c not in alts:
+                return False
+        else:
+            parts.append(z3.Or(*[c.z == a for a in sorted(alts)]))
+    return True if not parts else z3.And(*parts)
+
+
+def k4_html_properties(ctx):
+    import html as _htmlmod
+    h = _html()
+    ctx.decision_memo = {}
+    targets = ("title", "author", "keywords", "description", "meta-name")
+    focus = targets[ctx.choice("focus", len(targets))]
+    values = {"title": "Ttl", "author": "Ath", "keywords": "Kwd", "description": "Dsc"}
+    names = dict(_HTML_META)
+    sym_name_for = None
+    if focus == "meta-name":
+        sym_name_for = ("author", "keywords", "description")[ctx.choice("name_of", 3)]
+        names[sym_name_for] = _k4_text(ctx, "name", len(sym_name_for))
+        state = "text"
+    else:
+        state = ("absent", "empty", "text")[ctx.choice("state", 3)]
+        if state == "absent":
+            values[focus] = None
+        elif state == "empty":
+            values[focus] = ""
+        else:
+            values[focus] = _k4_text(ctx, "text", 1 + ctx.choice("text_len", ctx.params.get("max_text", 3)))
+    # the document (HTML living standard 4.2.2 title, 4.2.5 meta with standard metadata names)
+    table = {}
+
+    def lit(v, tag):
+        if ctx.concrete or isinstance(v, str):
+            return _htmlmod.escape(v, quote=True)
+        token = "@@%s@@" % tag
+        table[token] = v
+        return token
+    head = []
+    if values["title"] is not None:
+        head.append("<title>%s</title>" % lit(values["title"], "title"))
+    for p in ("author", "keywords", "description"):
+        if values[p] is not None:
+            head.append('<meta name="%s" content="%s">' % (lit(names[p], "n" + p), lit(values[p], "c" + p)))
+    doc = "<!DOCTYPE html><html><head>%s</head><body><p>x</p></body></html>" % "".join(head)
+    try:
+        if ctx.concrete:
+            res = list(h.read_html(io.BytesIO(doc.encode("utf-8")), None))
+            md = res[0].get_metadata()
+        else:
+            b = h._HtmlTreeBuilder()
+            b.feed(doc)
+            root = b.get_tree()
+            _html_substitute(root, table)
+            ex = _html_lifted_extractor(root)
+            ex._extract_metadata(None)
+            md = ex.metadata
+    except S.Unsupported:
+        raise
+    except Exception as e:
+        ctx.fail("metadata-reader-raised", fmt="html", exc=type(e).__name__, msg=str(e)[:80])
+        return
+    for p in ("title", "author", "keywords", "description"):
+        rep = getattr(md, p, None)
+        stored = values[p] if values[p] is not None else ""
+        if p == sym_name_for:
+            # the meta element counts for p iff its name is p in any letter case
+            is_p = _ascii_ci_equal(names[p], p)
+            ok_yes = _seq_eq(_strip_ws(rep), _strip_ws(stored))
+            ok_no = _seq_eq(rep, "")
+            if is_p is True or is_p is False:
+                ctx.require(ok_yes if is_p else ok_no, "meta-name-matching-differs-from-html", prop=p,
+                            name=_show(names[p]), reported=_show(rep))
+            else:
+                z = lambda c: z3.BoolVal(c) if isinstance(c, bool) else c
+                ctx.require(z3.If(is_p, z(ok_yes), z(ok_no)), "meta-name-matching-differs-from-html", prop=p,
+                            name=_show(names[p]), reported=_show(rep))
+            continue
+        _k4_compare(ctx, rep, stored, False, "property-not-reported-unchanged", fmt="html", prop=p)
+
+
+# ---------------------------------------------------------------------------------------
+# K4 / RTF
+# ---------------------------------------------------------------------------------------
+
+F_RTF_INFO_UNICODE = "C04-rtf-info-unicode-escape-dropped"
+F_RTF_INFO_CP1252 = "C04-rtf-info-hex-escape-read-as-latin1"
+F_RTF_INFO_ESCAPED = "C04-rtf-info-escaped-brace-or-backslash"
+
+# Windows-1252, bytes 0x80..0x9F (the rest of the code page equals ISO 8859-1); None = undefined
+_CP1252_HIGH = [0x20AC, None, 0x201A, 0x0192, 0x201E, 0x2026, 0x2020, 0x2021, 0x02C6, 0x2030, 0x0160, 0x2039,
+                0x0152, None, 0x017D, None, None, 0x2018, 0x2019, 0x201C, 0x201D, 0x2022, 0x2013, 0x2014,
+                0x02DC, 0x2122, 0x0161, 0x203A, 0x0153, None, 0x017E, 0x0178]
+_RTF_KEYWORD = {"title": "title", "author": "author", "subject": "subject", "keywords": "keywords",
+                "description": "doccomm"}        # RTF 1.9.1, information group
+_RTF_ATTR = {"title": "title", "author": "author", "subject": "subject", "keywords": "keywords",
+             "description": "doc_comment"}
+_WS_CODES = (9, 10, 11, 12, 13, 28, 29, 30, 31, 32, 0x85, 0xA0)
+
+
+def _strip_ws(x):
+    """leading / trailing white space removed, on code lists (white space below U+0100 as str.strip)"""
+    if x is None:
+        return ""
+    cs = _codes(x)
+
+    def ws(c):
+        if isinstance(c, int):
+            return c in _WS_CODES
+        return _truth(z3.Or(*[c.z == w for w in _WS_CODES]))
+    i, j = 0, len(cs)
+    while i < j and ws(cs[i]):
+        i += 1
+    while j > i and ws(cs[j - 1]):
+        j -= 1
+    return S.CharStr(cs[i:j])
+
+
+def _hex_digit(ctx, name):
+    """one hexadecimal digit chosen by the solver: (character, value)"""
+    c = ctx.fresh_int(name, 48, 102)
+    if ctx.concrete:
+        ctx.assume(chr(c) in "0123456789abcdefABCDEF")
+        return chr(c), int(chr(c), 16)
+    ctx.assume(z3.Or(z3.And(c.z >= 48, c.z <= 57), z3.And(c.z >= 65, c.z <= 70), z3.And(c.z >= 97, c.z <= 102)))
+    val = z3.If(c.z <= 57, c.z - 48, z3.If(c.z <= 70, c.z - 55, c.z - 87))
+    return S.CharStr([c]), S.SymInt(val)
+
+
+def k4_rtf_properties(ctx):
+    """the value of an information-group property is written as a sequence of RTF lexemes; the
+    reference decoder follows RTF 1.9.1 (\\'hh = byte in the document code page, \\uN + one fallback
+    character, \\\\ \\{ \\} literal characters)"""
+    m = _rtf()
+    ctx.decision_memo = {}
+    props = ("title", "author", "subject", "keywords", "description")
+    focus = props[ctx.choice("focus", len(props))]
+    K = 1 + ctx.choice("n_lexemes", ctx.params.get("max_lexemes", 2))
+    kinds = ["plain", "hex", "unicode", "escaped"]
+    excluded = set()
+    if _known(ctx, F_RTF_INFO_UNICODE):
+        excluded.add("unicode")
+    if _known(ctx, F_RTF_INFO_ESCAPED):
+        excluded.add("escaped")
+    src = "" if ctx.concrete else S.CharStr("")
+    expected = []              # code points (python int / z3 term)
+    free = []                  # indices in `expected` left unconstrained (undefined code page bytes)
+    for i in range(K):
+        kind = kinds[ctx.choice(f"kind{i}", len(kinds))]
+        if kind in excluded:
+            ctx.assume(False)
+        if kind == "plain":
+            t = ctx.fresh_chars(f"plain{i}", 1, 32, 126)
+            if ctx.concrete:
+                ctx.assume(t not in "\\{}")
+                expected.append(ord(t))
+            else:
+                ctx.assume(z3.And(*[t.c[0].z != ord(x) for x in "\\{}"]))
+                expected.append(t.c[0].z)
+            src = src + t
+        elif kind == "hex":
+            (c1, v1), (c2, v2) = _hex_digit(ctx, f"hex{i}a"), _hex_digit(ctx, f"hex{i}b")
+            byte = v1 * 16 + v2
+            if ctx.concrete:
+                ctx.assume(byte >= 32)
+                if _known(ctx, F_RTF_INFO_CP1252):
+                    ctx.assume(not (0x80 <= byte <= 0x9F))
+                if _known(ctx, F_RTF_INFO_ESCAPED):
+                    ctx.assume(byte not in (0x5C, 0x7B, 0x7D))
+                cp = byte if not (0x80 <= byte <= 0x9F) else _CP1252_HIGH[byte - 0x80]
+                if cp is None:
+                    free.append(len(expected))
+                    cp = byte
+                expected.append(cp)
+            else:
+                ctx.assume(byte.z >= 32)
+                if _known(ctx, F_RTF_INFO_CP1252):
+                    ctx.assume(z3.Not(z3.And(byte.z >= 0x80, byte.z <= 0x9F)))
+                if _known(ctx, F_RTF_INFO_ESCAPED):
+                    ctx.assume(z3.And(byte.z != 0x5C, byte.z != 0x7B, byte.z != 0x7D))
+                # undefined bytes of the code page: nothing is demanded (path aborted for simplicity)
+                ctx.assume(z3.And(*[byte.z != 0x80 + k for k, v in enumerate(_CP1252_HIGH) if v is None]))
+                cp = byte.z
+                for k, v in enumerate(_CP1252_HIGH):
+                    if v is not None:
+                        cp = z3.If(byte.z == 0x80 + k, z3.IntVal(v), cp)
+                expected.append(cp)
+            src = src + "\\'" + c1 + c2
+        elif kind == "unicode":
+            nd = 3 + ctx.choice(f"uni{i}_digits", 3)
+            d = _alphabet(ctx, ctx.fresh_chars(f"uni{i}", nd, 48, 57), "", ((48, 57),))
+            if ctx.concrete:
+                ctx.assume(d[0] != "0")
+                n = int(d)
+                ctx.assume(n < 65536 and not (0xD800 <= n <= 0xDFFF) and n >= 32)
+                expected.append(n)
+            else:
+                ctx.assume(d.c[0].z != 48)
+                n = z3.IntVal(0)
+                for ch in d.c:
+                    n = n * 10 + (ch.z - 48)
+                ctx.assume(z3.And(n < 65536, n >= 32, z3.Not(z3.And(n >= 0xD800, n <= 0xDFFF))))
+                expected.append(n)
+            src = src + "\\u" + d + "?"
+        else:
+            ch = "\\{}"[ctx.choice(f"esc{i}", 3)]
+            expected.append(ord(ch))
+            src = src + "\\" + ch
+    fixed = dict(_FIXED)
+    groups = []
+    for p in props:
+        groups.append(("{\\" + _RTF_KEYWORD[p] + " ") + (src if p == focus else fixed[p]) + "}")
+    text = "{\\rtf1\\ansi\\ansicpg1252\\deff0{\\fonttbl{\\f0 Arial;}}{\\info"
+    for g in groups:
+        text = text + g
+    text = text + "}\\pard\\plain x\\par}"
+    try:
+        if ctx.concrete:
+            res = list(m.read_rtf(io.BytesIO(text.encode("ascii")), None))
+            md = res[0].get_metadata()
+        else:
+            p = _rtf_lifted_parser(ctx, _ChrModel(ctx, False))
+            p._extract_metadata(text)
+            md = p.metadata
+    except S.Unsupported:
+        raise
+    except Exception as e:
+        ctx.fail("metadata-reader-raised", fmt="rtf", exc=type(e).__name__, msg=str(e)[:80])
+        return
+    for p in props:
+        rep = getattr(md, _RTF_ATTR[p], None)
+        if p != focus:
+            _k4_compare(ctx, rep, fixed[p], False, "property-not-reported-unchanged", fmt="rtf", prop=p)
+            continue
+        ctx.require(_is_text(rep), "property-not-text", prop=p)
+        if ctx.perturb == "expect_upper":
+            expected = [c - 32 if isinstance(c, int) and 97 <= c <= 122 else
+                        (z3.If(z3.And(c >= 97, c <= 122), c - 32, c) if not isinstance(c, int) else c) for c in expected]
+        exp = S.CharStr([c if isinstance(c, int) else S.SymInt(c) for c in expected])
+        a, b = _strip_ws(rep), _strip_ws(exp)
+        if free and ctx.concrete:
+            continue
+        ctx.require(_seq_eq(a, b), "property-not-reported-unchanged", fmt="rtf", prop=p,
+                    source=_show(src), reported=_show(rep),
+                    expected="".join(chr(c) for c in expected) if all(isinstance(c, int) for c in expected) else "<symbolic>")
+
+
+def _k4_other_targets():
+    h, m = _html(), _rtf()
+    return [h._HtmlTextExtractor._extract_metadata, h._HtmlTextExtractor._get_node_text,
+            m._RtfParser._extract_metadata]
+
+
+# =======================================================================================
+# kernels
+# =======================================================================================
+
+def _k3_targets():
+    m = _rtf()
+    return [m._RtfParser._strip_rtf_full_with_pages, m._RtfParser._strip_rtf_simple,
+            m._RtfParser._remove_ignorable_groups, m._RtfParser._is_skip_destination]
+
+
+KERNELS = [
+    Kernel("K1", "every accessor of every unit / image / table class on arbitrary field state: total, "
+                 "typed, stream at 0 with the reported length, get_dim == shape of get_table, numbers positive",
+           k1_accessors, targets=_k1_targets, parts=_k1_parts,
+           bounds={"quick": {"max_str": 3, "max_rows": 4}, "thorough": {"max_str": 5, "max_rows": 6}},
+           perturb=[("stream_position_kept", {"cls": "DocxImage"}), ("size_plus_one", {"cls": "DocxImage"}),
+                    ("columns_of_first_row", {"cls": "TableData"}), ("text_is_stripped", {"cls": "PlainTextUnit"})],
+           symbolic=["every int field read by the accessor (incl. <= 0; number fields >= 1)",
+                     "every character of every str field read by the accessor (tab, newline, 32..126)",
+                     "the length of every table row (0 .. 2^31)"],
+           choices=["accessor", "Optional field None / set", "string length", "payload b'' / b'xy'",
+                    "stream position 0 .. len+1", "number of rows / list elements", "XLS row key sets",
+                    "ODF svg:width / svg:height lexeme (digits x unit x junk)"],
+           assumptions=["extractor-side invariants: unit / image / table number fields are >= 1 (or None where "
+                        "Optional) and size_bytes == len(payload); both are established at the construction "
+                        "sites, which C03 / C14 check",
+                        "only the fields an accessor reads (from its own source text, transitively) are varied; "
+                        "the others keep their defaults; to_json / accessors that hand self on vary all fields",
+                        "fields hold values of their declared types"],
+           outside=["ODF image sizes are taken from a lexeme grammar (digit-run lengths 1..400 x units x junk), "
+                    "not from symbolic characters (the conversion goes through float())",
+                    "JSON-serialisability of to_json() (C05)", "the Content classes (C03)"],
+           stubs=["data_types.len -> symrun.sym_len (rows of symbolic length)"]),
+    Kernel("K2", "file name, extension and folder derived from the path argument; all None without a path",
+           k2_path_metadata, targets=_k2_targets, parts=_k2_parts,
+           perturb=[("extension_without_dot", {"len": 3}), ("folder_is_full_path", {"len": 3}),
+                    ("none_gives_empty_strings", {"len": -1})],
+           symbolic=["every character of the path, from { / . a b ! e-acute space } (relative, absolute, "
+                     "//, trailing /, ./, ../, hidden, trailing dot, several dots, archive!/member, non-ASCII)"],
+           choices=["file exists", "folder exists", "path given as str or as Path object"],
+           stubs=["data_types.Path -> pathlib.PurePath's own source lifted to symbolic strings (vf/lift.py) over "
+                  "posixpath's own source (vf/pathmodel.py); validated against pathlib on a lattice every run",
+                  "Path.exists -> symbolic answer; Path.resolve -> absolute + normalised (no symbolic links)",
+                  "data_types.str -> identity on symbolic strings"],
+           assumptions=["POSIX path flavour; the path names a file (it has a final component other than '..')",
+                        "working directory /cwd; no symbolic links on the way (resolve == abspath + normpath)",
+                        "a file that exists has an existing folder",
+                        "extension of names whose only dots lead or trail ('.bashrc', 'a.', '..a'): any convention accepted"],
+           outside=["Windows path flavour", "paths longer than the bound"],
+           timeout={"quick": 200, "thorough": 1500}),
+    Kernel("K3", "RTF strippers never put a surrogate code point into extracted text (UTF-8 encodable)",
+           k3_unicode, targets=_k3_targets, parts=_k3_parts,
+           perturb=[("demand_ascii", {"site": "full", "len": 3, "prefix": "\\u", "alphabet": "num", "suffix": ""})],
+           symbolic=["every free character of the RTF fragment (digits, - ? ' space \\ { } u a f newline)",
+                     "so the number N of \\uN and the byte of \\'hh are chosen by the solver"],
+           stubs=["regex objects of rtf_extractor -> SymRegex over the same pattern text (stdlib parser, "
+                  "backtracking order of re; validated against re)",
+                  "int -> symrun.IntShadow, chr -> range-checked chr on symbolic ints"],
+           assumptions=["input characters are no surrogates (they come out of bytes.decode)",
+                        "_strip_rtf_full_with_pages / _strip_rtf_simple / _remove_ignorable_groups / "
+                        "_is_skip_destination are the module's own source lifted to symbolic strings"],
+           outside=["fragments longer than the bound", "doc / ppt decoders with errors='replace' (decoder contract)",
+                    "7z member names (util/sevenzip.py builds names with chr() of UTF-16 code units; a name is "
+                    "not a text accessor)"],
+           timeout={"quick": 200, "thorough": 1500}),
+    Kernel("K4", "title / author / subject / keywords / description of the properties part reported unchanged "
+                 "(DOCX, PPTX, XLSX, EPUB, ODT, ODS, ODP, ODG, ODF)",
+           k4_xml_properties, targets=_k4x_targets, parts=_k4x_parts,
+           bounds={"quick": {"max_text": 4}, "thorough": {"max_text": 8}},
+           perturb=[("expect_upper", {"fmt": "docx"})],
+           symbolic=["every character (32..126) of the property under focus"],
+           choices=["property under focus", "absent / empty / text / repeated element", "text length"],
+           stubs=["ms_modern.*.int -> symrun.IntShadow",
+                  "XLSX: workbook.properties as openpyxl hands it over (symbolic run: attribute bag; concrete "
+                  "run: openpyxl's own DocumentProperties.from_tree on the written part)"],
+           assumptions=["the properties part is written from the format specifications (ECMA-376-2 core properties, "
+                        "ODF 1.2 office:meta, EPUB 3 package metadata), not from the readers' tag tables",
+                        "EPUB values compare modulo surrounding white space (EPUB 3.3 trims them)",
+                        "repeated elements (ODF meta:keyword, EPUB dc:creator / dc:subject): each stored value must "
+                        "occur in the reported string"],
+           outside=["OLE summary information (doc, xls, ppt, msg)", "PDF document information",
+                    "characters outside 32..126"]),
+    Kernel("K4h", "HTML: title and meta author / keywords / description reported unchanged; meta names match "
+                  "ASCII case-insensitively", k4_html_properties, targets=_k4_other_targets,
+           bounds={"quick": {"max_text": 3}, "thorough": {"max_text": 6}},
+           perturb=["expect_upper"],
+           symbolic=["every character (32..126) of the title / content under focus",
+                     "every character of a meta element's name attribute"],
+           choices=["property under focus", "absent / empty / text", "text length"],
+           stubs=["symbolic run: the real _HtmlTreeBuilder parses the document with placeholders, which are then "
+                  "replaced by symbolic strings; _extract_metadata / _get_node_text are their own source lifted; "
+                  "concrete run: read_html on the written document"],
+           assumptions=["values compare modulo surrounding white space"],
+           outside=["characters outside 32..126", "more than one meta element of a name"]),
+    Kernel("K4r", "RTF information group: title / author / subject / keywords / doccomm decoded per RTF 1.9.1",
+           k4_rtf_properties, targets=_k4_other_targets,
+           bounds={"quick": {"max_lexemes": 2}, "thorough": {"max_lexemes": 3}},
+           perturb=["expect_upper"],
+           symbolic=["plain characters (32..126 without \\ { })", "both hex digits of \\'hh", "the digits of \\uN"],
+           choices=["property under focus", "number and kind of lexemes (plain, \\'hh, \\uN?, \\\\ \\{ \\})"],
+           stubs=["regex objects and re.search calls of _extract_metadata -> SymRegex; int / chr shadows; "
+                  "concrete run: read_rtf on the written document"],
+           assumptions=["document declares \\ansi\\ansicpg1252; bytes undefined in Windows-1252 are not judged",
+                        "values compare modulo surrounding white space; \\uc1 (one fallback character)"],
+           outside=["\\~ \\_ \\- and other symbol control words inside values", "other code pages"],
+           timeout={"quick": 200, "thorough": 1500}),
+]
+
+META = {
+    "level_text": "The accessors of all 33 unit / image / table classes are executed on instances whose fields are "
+                  "symbolic within their declared types (ints, characters, row lengths; z3 decides every comparison "
+                  "in the accessors and proves get_dim == shape of get_table, positive numbers, stream at 0 with "
+                  "the reported length). populate_from_path runs on paths whose every character is symbolic "
+                  "(length <= 6, thorough 8) over pathlib's and posixpath's own source lifted to symbolic "
+                  "strings. The RTF strippers and the RTF / HTML metadata readers run as their own lifted "
+                  "source with the module's regular expressions interpreted on symbolic strings, so the solver "
+                  "picks the number in \\\\uN, the byte in \\\\'hh and the letter case of a meta name; "
+                  "property readers of the XML formats run on parts written from the format specifications.",
+    "level_note": "Trusted: lifted pathlib/posixpath and the regex interpreter (both compared with the stdlib on a "
+                  "lattice at run time), extractor-side invariants of numbers and size_bytes (checked by C03/C14), "
+                  "openpyxl's reading of core.xml. Outside: OLE summary information, PDF information dictionary, "
+                  "characters outside the stated ranges, inputs longer than the bounds, ODF image sizes as "
+                  "symbolic characters (lexeme grammar instead).",
+    "technique": "symbolic execution of the real accessors / lifted repository source on z3 Int and bounded-string "
+                 "proxies (symrun), regular expressions interpreted over symbolic strings from the stdlib's own "
+                 "parse tree, per-path SMT queries against reference decoders written from the specifications",
+}
